@@ -82,6 +82,13 @@ Fixpoint dec_lines (k : nat) (dlen : Z) (irest : list Z) (ipos irem zlin lines :
                 comp1 (u64 (ocnt + lout)) csize pt1 bst1
   end.
 
+(* sc_array_resize (out, size / elem_size) on an OWNER of `size` bytes allocates SC_ROUNDUP2_64 (size) =
+   1LL << (SC_LOG2_64 (size - 1) + 1) bytes.  For size > 2^63 the shift count is 64 - undefined in C; gcc on
+   x86-64 shifts by the count modulo 64 and the allocation has ONE byte (observed with ASan: finding
+   declared-size-over-2^62).  Otherwise the model keeps exactly `size` bytes: the surplus of the rounding is
+   never relied upon, and a failing allocation aborts the process (no memory access). *)
+Definition owner_capacity (size : Z) : Z := if 9223372036854775808 <? size then 1 else size.
+
 (* `unc src dest_size dest_cap dest_nil`: the decompressor of the build
    (sc_io_nonuncompress, or zlib's uncompress followed by the length check) *)
 Definition sc_decode_with (unc : list Z -> Z -> Z -> bool -> res (list Z))
@@ -105,7 +112,7 @@ Definition sc_decode_with (unc : list Z -> Z -> Z -> bool -> res (list Z))
   if negb (o_owner out) && (u64 (o_cnt out * o_esz out) <? size) then Err (-1) else
   (* sc_array_resize (out, size / elem_size): an owner now holds `size` bytes (array == NULL when 0),
      a view keeps its memory *)
-  let dest_cap := if o_owner out then size else o_cnt out * o_esz out in
+  let dest_cap := if o_owner out then owner_capacity size else o_cnt out * o_esz out in
   let dest_nil := o_owner out && (size =? 0) in
   src <- slice comp 9 (u64 (ocnt - 9)) ;;
   bytes <- unc src size dest_cap dest_nil ;;
@@ -116,7 +123,9 @@ Definition sc_decode (data : list Z) (out : outdesc) (maxsz : Z) : res (Z * list
   sc_decode_with nonuncompress data out maxsz.
 
 (* the build with zlib: uncompress (dest, &uncompsize = size, src, len) then `uncompsize != size` *)
+(* uncompress may write anywhere in dest[0 .. size): the destination must really have `size` bytes *)
 Definition zlib_unc (inflate : list Z -> Z -> option (list Z)) (src : list Z) (size cap : Z) (nil : bool) : res (list Z) :=
+  if cap <? size then Oob else
   match inflate src size with
   | Some d => if len d =? size then Ok d else Err (-1)
   | None => Err (-1)
